@@ -135,6 +135,9 @@ func runSolverCtx(parent context.Context, sp solverSpec, file string, timeoutSec
 
 // discharge runs the portfolio on one obligation.
 func (e *Engine) discharge(o *Oblig, dir string, timeoutSec int, thorough bool) {
+	if o.Kind == "static" {
+		return // decided by a syntactic scan when the obligation was created
+	}
 	text := e.smtText(o)
 	fname := filepath.Join(dir, sanitizeFile(o.Name)+".smt2")
 	os.MkdirAll(dir, 0o755)
